@@ -535,7 +535,9 @@ pub fn run_check<C: Check>(check: C, args: RunArgs) -> i32 {
     });
     let evdir = verif_root().join("evidence");
     let _ = std::fs::create_dir_all(&evdir);
-    std::fs::write(evdir.join(format!("{id}.json")), serde_json::to_string_pretty(&ev).unwrap()).expect("write evidence");
+    // auxiliary engines of a property (e.g. the cluster-level monitor of C07) write <id>.<suffix>.json
+    let suffix = std::env::var("VERIF_EVIDENCE_SUFFIX").unwrap_or_default();
+    std::fs::write(evdir.join(format!("{id}{suffix}.json")), serde_json::to_string_pretty(&ev).unwrap()).expect("write evidence");
 
     crate::outln!(
         "{} {}: evaluations={} distinct_nontrivial={} wall={:.1}s violations={}",
